@@ -140,6 +140,12 @@ func NewInjectorParamWithImports(ts []types.Type, isArg bool, pkg string, import
 func collectImportsFromType(t types.Type, pkg string, imports map[string]*Import, referencedImports map[string]*Import, varPool *VarPool) {
 	switch typ := t.(type) {
 	case *types.Named:
+		// Type arguments of a generic instance may come from other packages too
+		if typeArgs := typ.TypeArgs(); typeArgs != nil {
+			for i := range typeArgs.Len() {
+				collectImportsFromType(typeArgs.At(i), pkg, imports, referencedImports, varPool)
+			}
+		}
 		if objPkg := typ.Obj().Pkg(); objPkg != nil && objPkg.Path() != pkg {
 			pkgPath := objPkg.Path()
 			if imp, exists := imports[pkgPath]; exists {
